@@ -42,6 +42,33 @@ CLAIMED.update({
             "abstract interpretation of the encoder and of the enumeration loop + witness instantiation"),
 })
 
+CLAIMED.update({
+    "C05": ("§4 C05", "decides: C.minima-roles, C.relations (linear forms: η_i − mv_i + mf_i > 0, η_i ≥ 0, minima encoding, query constraint, answer "
+                      "polarity), C.query-edges, C.empty-minimum, C.selffulfilling, KEY.no-positional on the η/mv/mf name families. Assumes: the "
+                      "compilation theorem (von Berg et al.), SMT solver correctness, the enumeration summary established under C15",
+            "abstract interpretation + canonical linear forms + provenance qualifiers of indices"),
+    "C07": ("§4 C07", "decides for p-entailment, System Z, System W (rc2, z3), lex (rc2, z3): EXT.inf-hard, EXT.vacuity (guards compared over "
+                      "satisfiability patterns), EXT.start-total (integer reasoning over len(P) ≥ 1), EXT.only-infinity, EXT.pinf, and the "
+                      "recursion obligations on the generic head (Z.*). Assumes: semantic adequacy of the extended definitions",
+            "abstract interpretation + guard equivalence over satisfiability patterns + small integer reasoning"),
+    "C09": ("§4 C09", "decides three clauses only: D1 SHORTCUT.guard/dominance, D2 the per-operator decision SAT(A∧¬B)∧UNSAT(A∧B) ⇒ False "
+                      "(Z.decision, W.subset-test rows with V=∅, LEX.cardinality, LEX.strict-shortcuts), D3 CNF.roles/literals/constants. Not "
+                      "decided: And, Or, cautious monotony, Cut, rational monotony, LLE, RW (relations between answers of different queries)",
+            "composition of the operator rules (abstract interpretation, decision tables)"),
+    "C11": ("§4 C11", "decides: BACKEND.dispatch, BACKEND.engine-neutral, DISPATCH, W.siblings / LEX.siblings / EXT.siblings (both implementations "
+                      "discharge one obligation table on a common abstract form), Z3.translate, Z3MCS.*, MCS.*. Assumes: the solvers agree",
+            "sibling cross-check on a common abstract form (abstract interpretation of both implementations)"),
+    "C12": ("§4 C12", "decides: KEY.no-reserved, KEY.no-positional, NONINTERF. Not decided: invariance under reordering, atom renaming and "
+                      "equivalent rewriting (semantic)",
+            "provenance qualifiers of keys and indices carried by the abstract values + non-interference audit of decisions and answers"),
+    "C13": ("§4 C13", "decides: STATE.lifetime, ROWS.key, PAR.key, PAR.join, QUERYSLOT.def-before-use (also on the state an earlier query left "
+                      "behind), CACHE.readonly, PREPROC.once. Not decided: scheduling of processes, fork semantics",
+            "attribute-lifetime audit over the class hierarchy + abstract interpretation of the wrappers (key provenance, process typestate)"),
+    "C14": ("§4 C14", "decides: CHECK.three-way, TIMEOUT.flow, TIMEOUT.row, TIMEOUT.guarded-raise, PREPROC.once. Not decided: when an expiry "
+                      "happens, z3 honouring its timeout",
+            "typestate of check()/model() with a three-valued result + handler audit over the call paths + abstract interpretation of the wrappers"),
+})
+
 NA = {
     "C08": "inclusion between operators is a relation between answers of different operators on the same input that follows from theorems "
            "about their definitions; it has no code-shaped clause of its own - its anchored mechanism (same partition, same "
